@@ -93,6 +93,7 @@ class H(Hooks):
                         from ..symeval import Return
                         self._depth = getattr(self, "_depth", 0) + 1
                         ev.note_ret(c[0])
+                        ctx.memo("inlined_fns", dict).setdefault("Parser::%s" % m, set()).add(ev.what)
                         try:
                             try:
                                 return ev.block(c[0]["body"], dict(zip(ps, args), self=("self",)))
